@@ -19,7 +19,8 @@ REQUIRED = {"C16": {"released-before-the-first-wait": 3, "period-of-a-second-or-
                     "release-observed": 50, "release-on-exception-exit": 10, "clock-around-2^32us": 5,
                     "conversion-period-checked": 5000}}
 ASSUMPTIONS = {"C16": ["the HAL simulator's waitForNotifierAlarm returns when the simulated clock reaches the programmed alarm (level-triggered)",
-                       "sub-microsecond periods are not generated (the clock cannot represent the grid)"]}
+                       "sub-microsecond periods are not generated (the clock cannot represent the grid)",
+                       "the harness steps the clock to the alarm it sees programmed (the first one at creation); an implementation that arms its notifier later cannot be driven and gets no verdict (inconclusive), never a violation for that reason alone"]}
 
 
 def shards(pid, tier, seed):
@@ -70,6 +71,7 @@ def run_threaded(acc, case):
     e = simenv.env()
     proxy = e.proxy
     del proxy.calls[:]
+    proxy.last_init = None
     proxy.record = True
     P = case["P"]
     bodies = case["bodies"]
@@ -138,6 +140,11 @@ def run_threaded(acc, case):
         acc.violation("C16/raised", f"NotifierDelay({P}/1e6) raised {box['exc']!r}", case, {})
         return None
     handle = proxy.last_init
+    if handle is None and bodies:
+        # an implementation that allocates / arms its notifier later than at creation: this harness steps the clock to the
+        # alarm it SEES programmed, so it cannot drive such a loop - no verdict for this case
+        go.release()
+        return ("INCONCLUSIVE", "no notifier was armed at creation: the harness cannot drive this implementation")
 
     def alarms():
         return [c[2] for c in proxy.calls if c[0] == "alarm" and c[1] == handle]
@@ -217,7 +224,9 @@ def run_threaded(acc, case):
         return ("INCONCLUSIVE", "free() did not return")
     rel = [c[0] for c in proxy.calls[n_calls:] if c[1] == handle]
     acc.checks += 1
-    if rel.count("stop") != 1 or rel.count("clean") != 1 or rel.index("stop") > rel.index("clean"):
+    if handle is None and not rel:
+        acc.ev("nothing-allocated-nothing-released(observation)")
+    elif rel.count("stop") != 1 or rel.count("clean") != 1 or rel.index("stop") > rel.index("clean"):
         acc.violation("C16/not-released", f"after free()/with-exit the notifier calls were {rel}, expected one stop then one clean", case, {})
         return None
     acc.ev("release-observed")
@@ -256,10 +265,17 @@ def run_convert(acc, spec):
     import gc
     for n in range(spec["lo"] + spec["offset"], spec["hi"] + 1, spec["stride"]):
         t0 = e.now()
+        proxy.last_init = None
         try:
             d = pd.NotifierDelay(n / 1e6)
         except Exception as ex:  # noqa
             acc.violation("C16/raised", f"NotifierDelay({n}/1e6) raised {ex!r}", {"mode": "convert1", "n": n}, {})
+            continue
+        if proxy.last_init is None:
+            # an implementation that arms its notifier later than at creation: this sweep cannot see the period it uses
+            # (the threaded workload still judges every wait()); not a verdict
+            acc.ev("no-alarm-programmed-at-creation(observation)")
+            d.free()
             continue
         if len(graveyard) >= 3:
             # freed-but-still-referenced delays are collected while this newer one is in use: its notifier must survive
@@ -312,7 +328,7 @@ def run_shard(spec):
             acc.extra.setdefault("inconclusive_cases", []).append(r[1])
         if i < 2:
             acc.samples.append({"P": case["P"], "bodies": case["bodies"][:12], "use_with": case["use_with"]})
-    if acc.events.get("case-inconclusive", 0) > spec["n"] // 3:
+    if acc.events.get("case-inconclusive", 0) > spec["n"] // 3 and not acc.violations:
         # the simulator lost too many wake-ups (heavily loaded machine): the shard says so instead of guessing
         raise RuntimeError(f"too many inconclusive threaded runs: {acc.extra.get('inconclusive_cases')[:3]}")
     return acc.result()
